@@ -225,6 +225,20 @@ def denoteOut (srcs : Sources) : Source → Db → Option ORel
   | _, _ => none
 end
 
+/-- every CROSS join of the statement has, over `db`, two non-empty sides or two empty ones — exactly the region in
+which the `FULL OUTER JOIN … ON true` the code emits for CROSS coincides with the product (known finding C06-F1) -/
+def crossBalanced (srcs : Sources) : Source → Db → Bool
+  | .table _ _, _ => true
+  | .ref inst _, db => crossBalanced srcs inst db
+  | .join l r k _, db =>
+    crossBalanced srcs l db && crossBalanced srcs r db &&
+      (k != .cross ||
+        match denoteFrom srcs l db, denoteFrom srcs r db with
+        | some L, some R => L.rows.isEmpty == R.rows.isEmpty
+        | _, _ => true)
+  | .set l r _, db => crossBalanced srcs l db && crossBalanced srcs r db
+  | .query src _ _ _ _ _ _, db => crossBalanced srcs src db
+
 /-- rows a statement denotes over the storage content -/
 def denote (srcs : Sources) (s : Stmt) (db : Db) : Option ORel := denoteOut srcs s db
 
